@@ -54,7 +54,7 @@ def spelling_and_refusals(ctx):
         ('REJECT_upper', '%option noyywrap\n%%\nab { if (yyleng) REJECT; }\na ;\n.|\\n ;\n%%\n', [], 0),
         ('yyreject_call', '%option noyywrap\n%%\nab { if (yyleng) yyreject(); }\na ;\n.|\\n ;\n%%\n', [], 0),
         ('yyreject_call_r', '%option noyywrap reentrant\n%%\nab { if (yyleng) yyreject(); }\na ;\n.|\\n ;\n%%\n', [], 0),
-        ('yyreject_c99', '%option noyywrap\n%%\nab { if (yyleng) yyreject(); }\na ;\n.|\\n ;\n%%\n', ['--emit=c99'], 0),
+        ('yyreject_c99', '%option noyywrap\n%%\nab { yyreject(); }\na ;\n.|\\n ;\n%%\n', ['--emit=c99'], 0),
         ('reject_Cf', '%option noyywrap\n%%\nab REJECT;\n.|\\n ;\n%%\n', ['-Cf'], 1),
         ('yyreject_CF', '%option noyywrap\n%%\nab yyreject();\n.|\\n ;\n%%\n', ['-CF'], 1),
     ]
